@@ -19,7 +19,6 @@ structure DWArgs (a : Args) : Prop where
   valid : a.dtstart.Valid
   byweekno : a.byweekno = none
   byeaster : a.byeaster = none
-  bysetpos : a.bysetpos = none
   monthday_nz : ∀ x ∈ a.bymonthday.getD [], x ≠ 0
 
 /-- DAILY argument sets -/
@@ -36,7 +35,7 @@ theorem DWArgs.ne1 (da : DWArgs a) : (a.freq == 1) = false := by rcases da.freq2
 abbrev dailyRuleOf (a : Args) (bh bm bs : Option (List Int)) : Rule :=
   { freq := a.freq, interval := a.interval, wkst := a.wkst.getD 0,
     dtstart := { a.dtstart with us := 0 }, tz := a.tz, count := a.count, untilDT := a.untilDT,
-    bysetpos := none, bymonth := a.bymonth.map sortedSet, bymonthday := bymonthdayOf a,
+    bysetpos := a.bysetpos, bymonth := a.bymonth.map sortedSet, bymonthday := bymonthdayOf a,
     bynmonthday := bynmonthdayOf a, byyearday := a.byyearday.map sortedSet,
     byeaster := none, byweekno := none,
     byweekday := byweekdayOf a, bynweekday := bynweekdayOf a,
@@ -48,8 +47,8 @@ theorem daily_rule (da : DWArgs a) (h : construct a = .ok r) : ∃ bh bm bs, r =
   obtain ⟨sp, bh, bm, bs, ts, h1, h2, h3, h4, h5, rfl⟩ := construct_ok a r h
   dsimp only at hts
   subst hts
-  simp only [normBysetpos, da.bysetpos] at h1
-  injection h1 with h1; subst h1
+  have hsp := (normBysetpos_ok a sp h1).1
+  subst hsp
   exact ⟨bh, bm, bs, by simp [dailyRuleOf, da.ne0, da.byweekno, da.byeaster, bymonthOf]⟩
 
 theorem daily_cuts (da : DWArgs a) (h : construct a = .ok r) : CutsAgree a r := by
